@@ -207,6 +207,20 @@ def x_fromregex( ctx ):
         res.ok( src, extra[0], 'states added for the inner symbols of a multi-symbol encoding are non-terminal' )
     elif extra:
         res.bad( src, extra[0], extra[0], 'an intermediate state inside a multi-byte symbol must not accept' )
+    # ---- the expansion is restricted to states with ONE listed symbol ( plus, possibly, the wildcard ): the code that adds the chain re-binds
+    # the origin ( pre = last added state ) after an expansion, so a second symbol expanded in the same state would hang off the first symbol's
+    # chain.  The restriction is an assert on the size of the state's WHOLE transition table - dead targets included; counted over a filtered
+    # list ( live targets only ) it admits [^xy]* with two multi-byte symbols, and the machine built accepts one of the excluded symbols
+    sizes = [ a for a in ast.walk( sl ) if isinstance( a, ast.Assert ) and any( is_call_to( c, 'len' ) for c in ast.walk( a.test ))
+              and any( isinstance( c, ast.Compare ) and len( c.ops ) == 2 and try_fold( c.left ) == 1 and try_fold( c.comparators[1] ) == 2 for c in ast.walk( a.test )) ]
+    if not sizes:
+        res.bad( src, sl, 'from_regex: no assertion restricts multi-symbol expansion to states with one listed symbol', 'with two multi-byte symbols in one state the second chain is linked from the first symbol\'s intermediate state' )
+    for a in sizes:
+        arg = [ c.args[0] for c in ast.walk( a.test ) if is_call_to( c, 'len' ) and c.args ][0]
+        if dotted( arg ) == TAB or pmatch( arg, 'machine.map[%s]' % PRE ) is not None:
+            res.ok( src, a, 'multi-symbol expansion only in states whose whole transition table has 1 ( or 2, with the wildcard ) entries' )
+        else:
+            res.bad( src, a, 'the size restriction of the expansion counts %s, not the state\'s transition table' % norm_text( arg ), 'transitions into dead states are what a negated class [^xy] consists of: not counted, a state with two multi-byte symbols is expanded, the second chain hangs off the first one\'s intermediate state and the machine accepts an excluded symbol' )
     # ---- multi-symbol expansion: fresh registry keys, chain linking, wildcard duplication
     exp = [ f for f in ast.walk( sl ) if isinstance( f, ast.For ) and isinstance( f.target, ast.Tuple ) and isinstance( f.iter, ast.Subscript ) and isinstance( f.iter.slice, ast.Slice ) and f.iter.slice.lower is None and try_fold( f.iter.slice.upper ) == -1 ]
     if len( exp ) != 1:
